@@ -62,3 +62,10 @@ _p("C04", "other",
    "_simplify (static). NOT decided by any contract within reach: the outline geometry itself (caps, joins, miter limit, dash phase, stroker resolution) "
    "is Skia's stroker; a bounded component samples it on polylines (labelled bounded).",
    [PATHOPS, BRIDGE, CPY, LXML])
+
+_p("C05", "other",
+   "Proved (all values): the inheritance handlers, their dispatch table against the SVG property index, _inherit_attrib / _attrib_to_pass_on, group "
+   "flattening (removable iff ..., children in place, clamped opacity product, kept group carries only opacity), normalize_opacity, the stroke/fill "
+   "opacity bookkeeping (C04) and to_element/from_element round trip, over an attribute-map model of lxml. The whole-document claim (composited colour "
+   "at every sample point) is checked by a bounded component with an independent compositor (labelled bounded).",
+   [LXML, CPY, PATHOPS])
